@@ -141,6 +141,7 @@ type polCase struct {
 	RealDial   bool  `json:"real_dial"`                // C11: DialFunc is the real dial() with fake OS callees
 	RealState  bool  `json:"real_state,omitempty"`     // C11 (sysctl part): the State is the real NewState(); its file reads and writes go to a simulated /proc/sys
 	ErrShape   int   `json:"err_shape,omitempty"`      // which errno / wrapping the "syscall" and "permission" outcomes carry (pShape)
+	CleanupNS  int64 `json:"cleanup_ns,omitempty"`     // closing a connection takes this long (a socket that is slow to close): the next dial, or the return, comes after it
 }
 
 type polEvent struct {
@@ -266,6 +267,7 @@ func polModel(c polCase) polTrace {
 			t += dur
 		}
 		ev("task-end:%s", taskNames[o])
+		t += time.Duration(c.CleanupNS) // cleaning up is not interruptible, and nothing else happens until it is done
 		ev("cleanup")
 		switch o {
 		case tNil:
@@ -286,19 +288,21 @@ func polModel(c polCase) polTrace {
 
 // polHost is the recording host: connections and the State.
 type polHost struct {
-	mu          sync.Mutex
-	t0          time.Time
-	autoconf    bool
-	fails       []int
-	calls       int
-	log         []string
-	conns       []*vkNDPConn
-	script      func(stage string) error // failure of lookup / check / dialNDP for the current attempt
-	dialLatency time.Duration
-	checks      int
-	procRoot    string // real-state mode: directory standing in for /proc/sys/net/ipv6/conf
-	procEnd     string // content of eth0/autoconf when Dial had returned
-	badIO       []string
+	mu           sync.Mutex
+	t0           time.Time
+	autoconf     bool
+	fails        []int
+	calls        int
+	log          []string
+	conns        []*vkNDPConn
+	script       func(stage string) error // failure of lookup / check / dialNDP for the current attempt
+	dialLatency  time.Duration
+	closeLatency time.Duration
+	onClose      func() // real-dial mode: the "cleanup" step of the trace
+	checks       int
+	procRoot     string // real-state mode: directory standing in for /proc/sys/net/ipv6/conf
+	procEnd      string // content of eth0/autoconf when Dial had returned
+	badIO        []string
 }
 
 func (h *polHost) now() time.Duration { return time.Since(h.t0) }
@@ -440,6 +444,12 @@ func (c *vkNDPConn) LeaveGroup(netip.Addr) error {
 	return nil
 }
 func (c *vkNDPConn) Close() error {
+	if d := c.h.closeLatency; d > 0 {
+		time.Sleep(d)
+	}
+	if f := c.h.onClose; f != nil {
+		f()
+	}
 	c.h.mu.Lock()
 	defer c.h.mu.Unlock()
 	c.closes++
@@ -588,6 +598,8 @@ func polExecute(t *testing.T, c polCase) polRun {
 		}
 		cleanups := 0
 		if c.RealDial {
+			h.closeLatency = time.Duration(c.CleanupNS)
+			h.onClose = func() { ev("cleanup") }
 			real := d.DialFunc
 			d.DialFunc = func() (*DialContext, error) {
 				o := next(nDial)
@@ -623,7 +635,14 @@ func polExecute(t *testing.T, c polCase) polRun {
 					return nil, err
 				}
 				return &DialContext{Conn: &vkNDPConn{h: h}, Interface: &net.Interface{Index: 7, Name: "eth0"}, IP: netip.MustParseAddr("fe80::1"),
-					done: func() error { ev("cleanup"); cleanups++; return nil }}, nil
+					done: func() error {
+						if c.CleanupNS > 0 {
+							time.Sleep(time.Duration(c.CleanupNS))
+						}
+						ev("cleanup")
+						cleanups++
+						return nil
+					}}, nil
 			}
 		}
 		ctx, cancel := context.WithCancel(context.Background())
@@ -647,22 +666,14 @@ func polExecute(t *testing.T, c polCase) polRun {
 				case <-ctx.Done():
 					if c.CancelNil {
 						ev("task-end:nil")
-						if c.RealDial {
-							ev("cleanup")
-						}
 						return nil
 					}
 					ev("task-end:canceled")
-					if c.RealDial {
-						ev("cleanup")
-					}
 					return ctx.Err()
 				case <-time.After(time.Duration(c.TaskNS)):
 				}
 				ev("task-end:%s", taskNames[o])
-				if c.RealDial {
-					ev("cleanup") // the real done() runs right after the task returns; its effects are checked on the host log
-				}
+				// (with the real dial() the "cleanup" step is logged by the fake connection when it is closed)
 				return taskErr(o)
 			})
 			mu.Lock()
@@ -843,6 +854,9 @@ func polGen(real bool) func(t *rapid.T) polCase {
 			c.CancelNil = rapid.Bool().Draw(t, "cancelnil")
 		}
 		c.ErrShape = rapid.IntRange(0, 4).Draw(t, "errshape")
+		if rapid.IntRange(0, 3).Draw(t, "slowcleanup") == 0 {
+			c.CleanupNS = rapid.SampledFrom([]int64{int64(time.Millisecond), int64(900 * time.Millisecond), int64(1100 * time.Millisecond), int64(2 * time.Second), int64(5 * time.Second)}).Draw(t, "cleanupns")
+		}
 		if real {
 			for i, m := 0, rapid.IntRange(0, 12).Draw(t, "nfails"); i < m; i++ {
 				c.StateFails = append(c.StateFails, rapid.SampledFrom([]int{0, 0, 0, 1, 2, 3}).Draw(t, "sf"))
